@@ -4,7 +4,9 @@ CHECK = {
     "harness": "c18_checkups.cpp",
     # check-ups are header templates; CheckupRate.cpp (C17) is not needed and would pull in src/monitoring
     "srcs": ["src/diagnostics/CheckupReliability.cpp", "src/diagnostics/Diagnostic.cpp",
-             "src/diagnostics/DiagnosticReport.cpp", "src/diagnostics/DiagnosticStatus.cpp"],
+             "src/diagnostics/DiagnosticReport.cpp", "src/diagnostics/DiagnosticStatus.cpp",
+             # neighbouring printable types interleaved with the evaluations (shared hidden state)
+             "src/geodesy/WGS84Coordinates.cpp", "src/geodesy/GeodeticCoordinates.cpp"],
     "flavours": ["asan"],
     "quick": {"shards": 8, "timeout": 600},
     "thorough": {"shards": 16, "timeout": 3600},
@@ -17,7 +19,11 @@ CHECK = {
         "seq_timeout_then_evaluate", "seq_error_low_and_high", "seq_multi_step",
         "seq_near_duplicate_consecutive", "seq_same_value_again", "seq_signed_zero_flip", "seq_adjacent_value",
         "status_lists_random", "status_lists_length_20",
-        "report_append", "append_duplicate_keys", "append_chain", "append_20_or_more_diagnostics"],
+        "interleaved_neighbour_printing", "interleaved_wgs84_print", "eval_after_neighbour_printing_needing_7plus_digits",
+        "report_append", "append_duplicate_keys", "append_chain", "append_20_or_more_diagnostics",
+        "append_rhs_lvalue", "append_rhs_const_lvalue", "append_rhs_temporary", "append_rhs_moved", "append_rhs_checkup_report",
+        "append_left_empty", "append_left_diagnostics_no_info", "append_left_info_no_diagnostics",
+        "append_left_diagnostics_and_info", "append_rvalue_onto_info_only_left", "append_rvalue_onto_info_only_left_shared_keys"],
     "required_oracles": [
         "verdict.equal_to", "verdict.greater_than", "verdict.lower_than", "verdict.reliability",
         "verdict.exact_regime", "verdict.in_band_consistent",
@@ -34,7 +40,11 @@ CHECK = {
             "case is one of: (66%) a sequence of 1..8 evaluate/timeout steps on one CheckupEqualTo/GreaterThan/LowerThan "
             "<double|float|int> object, (14%) a sequence of 1..8 evaluations on one CheckupReliability, (10%) a random status "
             "list of length 1..20, (10%) a chain of 1..4 report appends with 0..20 diagnostics and 0..6 info keys each "
-            "(small key pool to force duplicate keys).  (target, epsilon) are either dyadic (a*2^-k, b*2^-k, |a|,b <= 2^20, k "
+            "(small key pool to force duplicate keys; the left operand starts in each of the four states {no diagnostics, diagnostics} x "
+            "{no info, info}; the right operand is an lvalue, a const lvalue, a function-return temporary, a std::move'd object or a "
+            "real check-up's getReport()); with probability 0.12 an evaluation is preceded by calls that print other library types "
+            "(WGS84/geodetic coordinates, statuses, diagnostics, optionals, strings, wide doubles) through setReportInfo / "
+            "toStringInfoValue / a local stream on the same thread.  (target, epsilon) are either dyadic (a*2^-k, b*2^-k, |a|,b <= 2^20, k "
             "from moderate, subnormal and huge ranges, epsilon 0 in 20%) so that the thresholds are exactly representable, or "
             "generic (log-uniform magnitudes 1e-6..1e6, subnormal, near the type's maximum); values are the threshold itself, "
             "nextafter on either side, 2..4 ulps off, grid neighbours, (generic regime) 8.5..1e4 eps*max(|t|,|e|) off i.e. just outside "
